@@ -128,12 +128,14 @@ def litdata_substituted():
 
 
 # ------------------------------------------------------------------------------------------ the three paths
-def _dataset(model, labels, c, np_chunks, path):
+def _dataset(model, labels, c, np_chunks, path, use_existing_chunks=False):
     from sleap_nn.data import custom_datasets as cd
 
     dc = data_config(c["is_rgb"], c["max_hw"], c["scale"], c.get("crop_hw"), c.get("user_only", True))
     common = dict(labels=labels, data_config=dc, max_stride=c["max_stride"], scale=c["scale"], apply_aug=False,
                   max_hw=tuple(c["max_hw"]), np_chunks=np_chunks, np_chunks_path=path)
+    if use_existing_chunks:
+        common["use_existing_chunks"] = True
     conf = head_config(c["sigma"], c["output_stride"], c.get("anchor"))
     if model == "single_instance":
         return cd.SingleInstanceDataset(confmap_head_config=conf, **common)
@@ -165,6 +167,14 @@ def run_npchunks(model, labels, c):
         # every index is read twice (second epoch) and the SECOND read is the one compared across frameworks: a framework
         # whose samples change on re-reading (e.g. through its in-memory cache) no longer agrees with the others (seed C18_r6)
         _first = [ds[i] for i in range(len(ds))]
+        fresh = c["reuse_chunks"]() if c.get("reuse_chunks") else None
+        if fresh is not None:
+            # the documented second use of the framework: a later run (here: a second dataset object over fresh labels)
+            # reads the chunk files the first one wrote (use_existing_chunks=True); its samples are the ones compared
+            ds2 = _dataset(model, fresh, c, True, path, use_existing_chunks=True)
+            if len(ds2) != len(ds):
+                raise AssertionError("dataset reusing the chunks has %d samples, the one that wrote them %d" % (len(ds2), len(ds)))
+            return [ds2[i] for i in range(len(ds2))]
         return [ds[i] for i in range(len(ds))]
     finally:
         shutil.rmtree(path, ignore_errors=True)
